@@ -476,12 +476,13 @@ def trace_mismatches(rej):
     if exp["kind"] == "map":
         if exp["pan"] != ev.get("pan"):
             out.append(dict(base, kind="pan", e=ev, expected=exp["pan"], got=ev.get("pan")))
-        elif exp["ret"] != ev.get("ret"):
+        elif not _ret_matches(ev, exp["ret"], ev.get("ret")):
             out.append(dict(base, kind="ret", e=ev, expected=exp["ret"], got=ev.get("ret")))
         same_shape = "t" not in ev or tree_shape(exp["t"]) == tree_shape(ev["t"])
+        same_entries = "t" not in ev or len(tree_entries(exp["t"])) == len(tree_entries(ev["t"]))
         if "x" in ev:
             for i, k in enumerate(("alen", "nfree", "count")):
-                if exp["x"][i] != ev["x"][i] and (k == "count" or same_shape):
+                if exp["x"][i] != ev["x"][i] and (same_entries if k == "count" else same_shape):
                     out.append(dict(base, kind=k, e=ev, expected=exp["x"][i], got=ev["x"][i]))
         if "t" in ev:
             w = tree_wf(ev["t"])
@@ -537,6 +538,20 @@ def trace_mismatches(rej):
         else:
             raise ToolError(f"pair line {rej['line']}: the code agrees with the machine but the abstract judgement fails (specification bug)")
     return out
+
+
+def _ret_matches(ev, mine, logged):
+    """the relaxations of TraceV!RetMatches"""
+    try:
+        if ev.get("a") == "Retain" and not ev.get("pan"):
+            return sorted(json.dumps(x, sort_keys=True) for x in mine) == sorted(json.dumps(x, sort_keys=True) for x in logged)
+        if ev.get("a") == "Find" and ev.get("kind") == "find":
+            if len(mine) != len(logged):
+                return False
+            return not mine or (mine[0]["ok"] == logged[0]["ok"] and mine[0]["d"]["it"] == logged[0]["d"]["it"])
+    except Exception:
+        return False
+    return mine == logged
 
 
 def tree_wf(t):
